@@ -321,9 +321,24 @@ def _codec(rep, prog):
         # the push is not reachable from the caret arm without a new token extraction
         ext = [n for n, name, a in F.call_nodes(lambda s: s == 'operator>>') if 'token' in ir.fmt_stmt(n.stmt)]
         okp = len(ext) >= 1
-    gd = [b for b, arm in F.throw_guards() if 'din' in ir.fmt(b.stmt[1])]
-    asn = [n for n in F.nodes(kind='assign') if n.stmt[1] == ('var', 'cprob') and 'digits' in ir.fmt(n.stmt[2])]
-    okg = len(gd) == 1 and len(asn) == 1 and F.dominates(gd[0], asn[0])
+    # the value variable(s) declared in the plain-token arm, the assignment `cprob = f(value)`, and a throw guard between the
+    # conversion and that assignment which tests the conversion's own outcome: the state of the stream the value was extracted
+    # from, or the end pointer / the value of a strto*-style conversion (finiteness of the value is C15's FINITE rule)
+    dvars = [v['name'] for n in astu.walk(else_arm) if n['k'] == 'Decl' for v in n['vars'] if v.get('ty') == 'double']
+    asn = [n for n in F.nodes(kind='assign') if n.stmt[1] == ('var', 'cprob') and any(dn in ir.fmt(n.stmt[2]) for dn in dvars)]
+    conv = set(dvars)
+    for n in astu.walk(else_arm):
+        if n['k'] == 'OpCall' and n.get('op') == '>>' and any(astu.src(a) in dvars for a in n['args'][1:]):
+            conv.add(astu.src(n['args'][0]))                       # the stream extracted from
+        if n['k'] == 'Decl':
+            for v in n['vars']:
+                if 'init' in v and any(c_['callee']['qn'].split('::')[-1] in ('strtod', 'strtof', 'strtold', 'stod', 'stof')
+                                       for c_ in astu.calls(v['init'])):
+                    for c_ in astu.calls(v['init']):
+                        for a in c_.get('args', [])[1:]:
+                            conv.add(astu.src(astu.strip_casts(a)).lstrip('&'))    # end pointer / position argument
+    gd = [b for b, arm in F.throw_guards() if any(cv and cv in ir.fmt(b.stmt[1]) for cv in conv)]
+    okg = len(asn) == 1 and any(F.dominates(g_, asn[0]) for g_ in gd)
     rep.add('CODEC', 'decoder:one-value-per-token', where(dec, push[0].line if push else None), 'one push_back(cprob) per value token; a token '
             'that is not a number raises before its value is used', okp and okg)
 
